@@ -1,3 +1,14 @@
 PROP = {"engines": [("tst", "default")],
-        "level_text": "TBD",
-        "assumptions": []}
+        "level_text": "Theorems (Coq, Properties/C11.v) about a transcription of cc_tsttable.c that keeps node paths as pointers and threads the allocation ledger: "
+                      "C11_step_refines / C11_run_refines (every add-or-replace/get/contains/remove/remove_all/size history from new_conf, any fault plan, refines an ideal "
+                      "finite map on byte strings with exact statuses; a refused add is atomic), C11_inv_preserved (stored key = path, no dead branches, size = #end-of-word nodes), "
+                      "C11_remove_frame, C11_size, C11_iteration_order / C11_enumeration / C11_iter_next (the arrival-direction automaton yields every present key exactly once, "
+                      "in pre-order, within its fuel), C11_iter_remove (removal through the iterator removes exactly the yielded key and the advanced iterator stays valid on the pruned tree), "
+                      "C11_empty_key_refuted (D30 witness), plus the C06/C08/C14/C16 families for this container. The model is run against the compiled code (ASan/UBSan) on every key set of size <= 3 "
+                      "over {a,b}^<=3 in every insertion x removal order, every next/iter_remove program over those tables, random byte keys (bytes >= 128), boundary keys and "
+                      "fault plans hitting every allocation of add and new_conf; size, get of every pool key, iterator and foreach contents, exact iteration order and the ledger are compared after every call.",
+        "assumptions": ["keys are NUL-terminated byte strings; theorems are for non-empty keys (the empty key is known finding D30: ops add0/get0/has0/rm0)",
+                        "char is signed (x86-64 gcc): bytes >= 128 order before bytes < 128",
+                        "fewer than 2^64 - 1 keys (size + 1 does not wrap)",
+                        "iterator theorems cover protocol-conforming use (iter_remove only after a successful iter_next, no table mutation through the table API while iterating); other uses are outside the library's contract and skipped by both executables",
+                        "the key pointer stored in an entry is modelled by the key's bytes (the harness interns keys, so pointer identity = content identity)"]}
